@@ -1,6 +1,7 @@
 mod artefacts;
 mod ast;
 mod css;
+mod determinism;
 mod exprs;
 mod gen;
 mod gen_tmpl;
@@ -23,6 +24,7 @@ fn main() {
         "cssnum" => css::run_num(tier, seed, &mut out),
         "ident" => artefacts::ident(tier, seed, &mut out),
         "artefacts" => artefacts::artefacts(tier, seed, &mut out),
+        "determinism" => determinism::run(tier, seed, &mut out),
         "exprgen" => exprs::run_gen(tier, seed, &mut out),
         "exprval" => exprs::run_val(tier, seed, &mut out),
         "lit" => lit::run(tier, seed, &mut out),
